@@ -93,9 +93,10 @@ Refuses(A, io) ==
   CASE A.op \in {"add", "sub"} -> Dim(X.u) # Dim(Y.u) \/ ((IsLog(X.u) \/ IsLog(Y.u)) /\ X.u # Y.u)
     [] A.op = "div" -> Y.z
     [] A.op = "mul" -> FALSE
-    [] A.op = "eq" -> ~Y.z /\ ~Convertible(Y.u, X.u)
+    [] A.op = "eq" -> (~Y.z /\ ~Convertible(Y.u, X.u)) \/ X.dec \/ Y.dec
     [] A.op = "eqn" -> ~Convertible(UNone, X.u)
-    [] A.op \in {"np.linspace", "np.logspace"} -> ~Convertible(Y.u, X.u)
+    [] A.op \in {"np.linspace", "np.logspace"} -> ~Convertible(Y.u, X.u) \/ X.dec \/ Y.dec
+    [] A.op \in {"np.linspace_nq", "np.logspace_nq", "np.linspace_qn", "np.logspace_qn", "np.round", "rele_set"} -> X.dec
     [] A.op \in {"radd", "rsub", "addn", "subn"} -> ~ZeroDim(X.u) \/ IsLog(X.u)
     [] A.op = "rdiv" -> X.z
     [] A.op \in SinOps -> ~Convertible(X.u, URad) \/ X.dec
